@@ -24,7 +24,7 @@ KeyOf(needs) == CHOOSE k \in Range(NeedKeys) : NeedSet(k) = needs
 OpSeq == IdxN(Len(OpNames), LAMBDA k : OpNames[k] \in RunOps)
 
 \* C05 on the model
-ModelImplementsReduce == \A op \in RunOps : Agrees(op, S) \/ ModelDeviation(op, S)
+ModelImplementsReduce == S = <<>> \/ \A op \in RunOps : Agrees(op, S) \/ ModelDeviation(op, S)
 ReduceIsSound         == \A op \in RunOps : ReduceSound(op, S)
 \* Reduce removes nothing from a clean Db and everything from a Db without usable sample
 ReduceExtremes == /\ Feat(S).clean => \A k \in DOMAIN NeedKeys : Keep(S, NeedSet(NeedKeys[k])) = [i \in DOMAIN S |-> i]
